@@ -2204,8 +2204,12 @@ XPathProcessorImpl::LocationPath()
 
     m_expression->appendOpCode(XPathExpression::eOP_LOCATIONPATH);
 
+    bool    fFoundRoot = false;
+
     if(tokenIs(XalanUnicode::charSolidus) == true)
     {
+        fFoundRoot = true;
+
         nextToken();
 
         const int   newOpPos = m_expression->opCodeMapLength();
@@ -2223,7 +2227,19 @@ XPathProcessorImpl::LocationPath()
         m_expression->updateOpCodeLength(newOpPos);
     }
 
-    if(m_token.empty() == false)
+    // A '/' by itself is a complete location path, so do not expect a
+    // step when the next token cannot start one ("/ | a", "a[/]", "/ = b").
+    if(m_token.empty() == false &&
+       (fFoundRoot == false ||
+        (tokenIs(XalanUnicode::charRightSquareBracket) == false &&
+         tokenIs(XalanUnicode::charVerticalLine) == false &&
+         tokenIs(XalanUnicode::charComma) == false &&
+         tokenIs(XalanUnicode::charEqualsSign) == false &&
+         tokenIs(XalanUnicode::charExclamationMark) == false &&
+         tokenIs(XalanUnicode::charLessThanSign) == false &&
+         tokenIs(XalanUnicode::charGreaterThanSign) == false &&
+         tokenIs(XalanUnicode::charPlusSign) == false &&
+         tokenIs(XalanUnicode::charHyphenMinus) == false)))
     {
         RelativeLocationPath();
     }
